@@ -330,3 +330,10 @@ Definition anon (t : ty) : ty := anon_with anon_object t.
 
 Definition shape_fields (s : shape) : list string :=
   match s with KStruct fs => map fst fs | _ => [] end.
+
+(* the input with every white-space character removed *)
+Fixpoint unspace (s : string) : string :=
+  match s with
+  | EmptyString => EmptyString
+  | String c r => if is_ws c then unspace r else String c (unspace r)
+  end.
